@@ -39,6 +39,9 @@ pub struct PoolScn {
     pub broadcasts: Vec<Bcast>,
     /// `(tid, k)`: the k-th park call of `tid` returns spuriously.
     pub spurious_parks: Vec<(usize, u32)>,
+    /// Global indices of `compare_exchange_weak` calls that fail spuriously
+    /// (fires only if the code under test uses weak CAS at all).
+    pub cas_weak_fail: Vec<u32>,
 }
 
 #[derive(Clone, Debug, Default)]
@@ -272,7 +275,15 @@ impl PoolScn {
                 spurious_parks.push(p);
             }
         }
-        PoolScn { broadcasts, spurious_parks }
+        let cas_weak_fail: Vec<u32> = if rng.chance(1, 4) {
+            let mut v: Vec<u32> = (0..rng.range(1, 3)).map(|_| rng.range(0, 8) as u32).collect();
+            v.sort_unstable();
+            v.dedup();
+            v
+        } else {
+            Vec::new()
+        };
+        PoolScn { broadcasts, spurious_parks, cas_weak_fail }
     }
 
     pub fn max_n(&self) -> usize {
@@ -289,6 +300,7 @@ impl PoolScn {
                 "helper_caller": b.helper_caller,
             })).collect::<Vec<_>>(),
             "spurious_parks": self.spurious_parks.iter().map(|&(t, k)| json!([t, k])).collect::<Vec<_>>(),
+            "cas_weak_fail": self.cas_weak_fail,
         })
     }
 
@@ -318,7 +330,12 @@ impl PoolScn {
             .iter()
             .map(|p| Some((p[0].as_u64()? as usize, p[1].as_u64()? as u32)))
             .collect::<Option<Vec<_>>>()?;
-        Some(PoolScn { broadcasts, spurious_parks })
+        let cas_weak_fail = v
+            .get("cas_weak_fail")
+            .and_then(|x| x.as_array())
+            .map(|a| a.iter().filter_map(|x| x.as_u64().map(|x| x as u32)).collect())
+            .unwrap_or_default();
+        Some(PoolScn { broadcasts, spurious_parks, cas_weak_fail })
     }
 
     /// Shape key for the distinctness count.
@@ -349,6 +366,7 @@ impl PoolScn {
             max_steps: 20_000,
             faults: FaultPlan {
                 spurious_parks: self.spurious_parks.clone(),
+                cas_weak_fail: self.cas_weak_fail.clone(),
                 ..FaultPlan::default()
             },
             name: "pool",
@@ -401,6 +419,11 @@ impl PoolScn {
                 s.broadcasts.remove(j);
                 c.push(s);
             }
+        }
+        if !self.cas_weak_fail.is_empty() {
+            let mut s = self.clone();
+            s.cas_weak_fail.clear();
+            c.push(s);
         }
         // Drop a fault.
         for f in 0..self.spurious_parks.len() {
